@@ -345,6 +345,30 @@ prop("C08",
      **_url_common)
 
 
+# ---------------------------------------------------------------------------------------------
+# C20 struct declarations
+prop("C20",
+     family="struct",
+     mc=lambda tier: [("MC_Struct", _t(tier, "MC_Struct_quick.cfg", "MC_Struct_thorough.cfg"))],
+     gen=lambda tier: ("MC_Struct", _t(tier, "MC_Struct_quick.cfg", "MC_Struct_thorough.cfg")),
+     driver=lambda tier, seed, gen, out: ["struct", "-gen", gen, "-out", out, "-seed", str(seed)] +
+     _t(tier, [], ["-sample", "150000"]),
+     trace=("Trace_Struct", "Trace_Struct.cfg"),
+     required=["check:ok", "check:err", "accepted-with-fields"],
+     level_text="A struct declaration is an abstract shape (ID variant in 6, fields with Go type in 9, json tag in 4, "
+                "api tag in 9 forms). The specification gives Sane(shape) and Expected(shape), the type the tags "
+                "declare; TLC checks that Expected is well defined for every sane shape of the bound and emits every "
+                "shape; the driver declares each struct type at run time with reflect.StructOf and the shape's tags, "
+                "runs Check, BuildType and Wrap (pointer and value), New, Copy, Get/Set of every declared field with a "
+                "value of its type, Set of the id and MarshalResource under recover, and TLC judges: accepted => no "
+                "panic and built type = wrapper type = Expected; rejected => BuildType errs and Wrap refuses.",
+     level_note="reflect.StructOf cannot declare named field types or methods (not needed by the property). Quick: all "
+                "shapes with <=1 field (1,950); thorough: adds a seeded sample of the two-field shapes.",
+     assumptions=["exported fields only", "Check is called on a value of the struct type; Wrap and BuildType on pointer and value"],
+     coverage=False,
+     )
+
+
 def run(pid, tier, seed):
     P = PROPS[pid]
     if "run" in P:
